@@ -558,7 +558,11 @@ def run_check(pid, tier, seed, t0):
     if not ok:
         res.broken.append("tie(a) extractor: " + msg)
     reg = registry().get(pid, {"modules": [], "theorems": []})
-    proof = wee.prove(pid, reg) if reg["modules"] else {"obligations": [], "discharged": [], "problems": ["no theorem registered"], "checker_cmd": ""}
+    if reg["modules"]:
+        proof = wee.prove(pid, reg)
+    else:
+        okd, outd = wee.lake_build(["weedriver"])
+        proof = {"obligations": [], "discharged": [], "problems": ["no theorem registered"] + ([] if okd else ["driver build failed: " + outd[-400:]]), "checker_cmd": ""}
     okc, msgc = wee.cargo_build("debug")
     if not okc:
         res.broken.append("harness does not build against /repo: " + msgc[-500:])
